@@ -227,6 +227,14 @@ def run_impl(ctx, cases, lines):
         exe = ctx["vh_release"] if prof == 1 and ctx.get("vh_release") else ctx["vh"]
         env = dict(vc.ENV)
         env["TZ"] = TZS[tz]
+        # the pattern encoder's output (text and set_style calls) does not depend on the colour variables
+        # - those are the console writer's business (C18): half of the processes run with NO_COLOR=1
+        # (and CLICOLOR=0), the other half with CLICOLOR_FORCE=1
+        if tz % 2 == 1:
+            env["NO_COLOR"] = "1"
+            env["CLICOLOR"] = "0"
+        else:
+            env["CLICOLOR_FORCE"] = "1"
         hl = [vc.show([cases[i][0], cases[i][1], cases[i][2], cases[i][3], cases[i][4], treqs[i]]) for i in idx]
         # a parser bug can loop forever while allocating: cap the child's address space
         # and wall clock, run in growing chunks and give up on the group after a few
